@@ -43,6 +43,7 @@ package crypto
 //@   ensures result1 != nil ==> result0 == nil
 
 //@ func (*ECPoint).ScalarMult
+//@   deadpoints 1
 //@   props C06 C17
 //@   requires validPoint(p)
 //@   requires [scalar-not-zero-mod-order] okScalar(p.curve, k)
@@ -50,6 +51,7 @@ package crypto
 //@   ensures px(result) == ecmulx(p.curve, px(p), py(p), val(k)) && py(result) == ecmuly(p.curve, px(p), py(p), val(k))
 
 //@ func ScalarBaseMult
+//@   deadpoints 1
 //@   props C06 C17
 //@   requires curve != nil
 //@   requires [scalar-not-zero-mod-order] okScalar(curve, k)
@@ -120,4 +122,5 @@ package crypto
 //@ func GenerateNTildei
 //@   props C06 C19
 //@   requires rand != nil
+//@   requires [prime-size] (safePrimes[0] != nil ==> bitlen(val(safePrimes[0])) <= 2048) && (safePrimes[1] != nil ==> bitlen(val(safePrimes[1])) <= 2048)
 //@   ensures err == nil ==> (NTildei != nil && h1i != nil && h2i != nil && val(NTildei) == val(safePrimes[0]) * val(safePrimes[1]))
